@@ -256,19 +256,29 @@ Definition fix_ok (k : bkind) (b : bytes) : bool :=
   match k with BFix n => Z.of_nat (length b) =? n | _ => true end.
 Definition is_ptr (t : ty) : bool := match t with TPtr _ => true | _ => false end.
 
-(* which underlying types the serializer accepts under a NAMED Go type:
-   asString (utf8 / large_utf8 / dictionary / decimal text) and asBytes
-   (large_binary, fixed_size_binary) look at the Kind; the plain BINARY case
-   asserts value.([]byte), toInt64 / toUint64 / toFloat64 and the BOOL case
-   switch on the exact Go type, so a named integer / float / bool / []byte in a
-   binary column is refused ("cannot convert ..."). *)
+(* which underlying types the serializer accepts under a NAMED Go type: every
+   leaf kind.  asString / asBytes / asBool / asTime / asDuration and (since fix
+   d741a8f) toInt64 / toUint64 / toFloat64 go by the value's Kind or
+   convertibility, as the schema derivation and the decoder do; the decoder
+   converts into a named time / duration field type. *)
 Definition named_enc_ok (t : ty) : bool :=
   match t with
-  | TStr _ | TDec => true
+  | TPtr _ | TList _ | TMap _ _ | TStruct _ | TNamed _ _ => false
+  | _ => true
+  end.
+(* before d741a8f: toInt64 / toUint64 / toFloat64 and the BOOL / BINARY cases
+   switched on the exact Go type and refused a named integer / float / bool and
+   a named []byte in a plain binary column; a named time / duration field was
+   written but could not be set on decode *)
+Definition named_enc_ok_legacy (t : ty) : bool :=
+  match t with
+  | TStr _ | TDec | TDate | TTs _ _ | TTime | TDur => true
   | TBin BBin => false
   | TBin _ => true
   | _ => false
   end.
+Definition named_dec_ok_legacy (t : ty) : bool :=
+  match t with TDate | TTs _ _ | TTime | TDur => false | _ => true end.
 
 Fixpoint enc (t : ty) (x : gv) {struct t} : option wv :=
   match t, x with
@@ -353,6 +363,12 @@ Fixpoint dec (t : ty) (w : wv) {struct t} : option gv :=
   | _, _ => None
   end.
 
+(* pre-d741a8f behaviour for a field of a named type *)
+Definition enc_named_legacy (t : ty) (x : gv) : option wv :=
+  if named_enc_ok_legacy t then enc t x else None.
+Definition dec_named_legacy (t : ty) (w : wv) : option gv :=
+  if named_dec_ok_legacy t then dec t w else None.
+
 (* pre-fix setMapField: the item's validity bit is not consulted *)
 Definition dec_map_legacy (k v : ty) (w : wv) : option gv :=
   match w with
@@ -427,8 +443,7 @@ Fixpoint wire_ok (t : ty) (w : wv) {struct t} : bool :=
 (* field types on which the theorems hold: no pointer to pointer (list elements,
    struct children and map items are nullable through ONE pointer), no nullable
    map key, fixed-size binaries of positive width.  All four timestamp units.
-   Named types (with any method set) over strings, decimal text, large and
-   fixed-size binaries; the named kinds the serializer refuses are outside. *)
+   Named types (with any method set) over every leaf kind. *)
 Fixpoint ty_ok (t : ty) : bool :=
   match t with
   | TBin (BFix n) => 0 <? n
